@@ -580,6 +580,8 @@ func scenTerm(out *scenOut, r *rng, thorough bool) {
 	}
 	quitBeforeRun(out, false)
 	quitBeforeRun(out, true)
+	quitUnderContinuousSends(out, "quit-msg")
+	quitUnderContinuousSends(out, "quit-api")
 	for _, cause := range []string{"quitmsg", "interrupt", "quitapi"} {
 		endWithManyBlockedCommands(out, cause, 400)
 	}
@@ -739,7 +741,8 @@ func scenAPI(out *scenOut, r *rng, thorough bool) {
 	// terminal, as in CI or under setsid). Callers parked before Run and callers
 	// arriving after it must all return.
 	ttyFail(out)
-	uncaughtPanic(out)
+	uncaughtPanic(out, false)
+	uncaughtPanic(out, true)
 	for _, how := range []string{"ctx-before-run", "kill-before-run"} {
 		endedBeforeItBegan(out, how)
 	}
@@ -781,19 +784,36 @@ func scenAPI(out *scenOut, r *rng, thorough bool) {
 // uncaughtPanic: the program was built with WithoutCatchPanics and its Update panics; the
 // goroutine that called Run recovers the panic. The program has ended ("for any reason"): the
 // callers blocked in Send / Quit / Println / Printf / Wait and the ones arriving later return.
-func uncaughtPanic(out *scenOut) {
+func uncaughtPanic(out *scenOut, secondRun bool) {
 	ctl := newRecCtl()
 	g := newGate(true)
 	ctl.gates["update:u7.0"] = g
 	ctl.panicOn.set("update:u7.0")
 	p := tea.NewProgram(recModel{c: ctl}, tea.WithInput(nil), tea.WithOutput(&safeBuffer{}), tea.WithoutSignalHandler(), tea.WithoutCatchPanics())
+	desc := "WithoutCatchPanics; Update panics while callers are blocked; the caller of Run recovers"
+	if secondRun {
+		// round 16 (C13-p): the same, as the SECOND run of a Program whose first run ended by a quit
+		desc += "; second Run of the Program (the first one quit)"
+		first := make(chan struct{})
+		go func() { defer close(first); p.Run() }()
+		waitFor(2*time.Second, func() bool { return ctl.log.has("view-exit", "") })
+		p.Quit()
+		select {
+		case <-first:
+		case <-time.After(3 * time.Second):
+			killNow(p)
+			return
+		}
+	}
 	runDone := make(chan struct{})
 	go func() {
 		defer close(runDone)
 		defer func() { recover() }()
 		p.Run()
 	}()
-	desc := "WithoutCatchPanics; Update panics while callers are blocked; the caller of Run recovers"
+	if secondRun {
+		waitFor(2*time.Second, func() bool { return ctl.log.count("view-exit", "") >= 2 })
+	}
 	waitFor(2*time.Second, func() bool { return ctl.log.has("view-exit", "") })
 	type call struct {
 		name string
@@ -838,7 +858,7 @@ func uncaughtPanic(out *scenOut) {
 			deadline = time.After(time.Millisecond)
 		}
 	}
-	out.record("uncaught-panic", desc)
+	out.record(fmt.Sprintf("uncaught-panic second-run=%v", secondRun), desc)
 	if len(stuck) > 0 {
 		out.fail(finding{Property: "C13", Class: "new", What: "calls never return after Run ended by a panic that was not caught by the program (WithoutCatchPanics)", Input: desc,
 			Expected: "every call returns once the program has ended", Observed: strings.Join(stuck, ",")})
@@ -1701,5 +1721,65 @@ func endWithBlockedSequence(out *scenOut, cause string) {
 	}
 	if got := errClass(run.err); got != want {
 		out.fail(finding{Property: "C04", Class: "new", What: "wrong Run result", Input: desc, Expected: want, Observed: got})
+	}
+}
+
+// quitUnderContinuousSends (round 16, C04-p): producers that never stop calling Send, a model whose Update
+// takes a little time, then a quit. "Run returns as soon as any in-progress user callback returns - no
+// matter what else is happening: ... goroutines blocked in Send": the stream of senders must not keep
+// Run alive after the quit has been handled.
+func quitUnderContinuousSends(out *scenOut, how string) {
+	ctl := newRecCtl()
+	var after int32 // Updates that began after the quit was handled
+	var quitSeen int32
+	ctl.onUpdate = func(m tea.Msg, v int) tea.Cmd {
+		if atomic.LoadInt32(&quitSeen) == 1 {
+			atomic.AddInt32(&after, 1)
+		}
+		time.Sleep(200 * time.Microsecond)
+		if u, ok := m.(userMsg); ok && u.Sender == 9 && how == "quit-msg" {
+			return tea.Quit
+		}
+		return nil
+	}
+	run := startProgram(ctl, nil, tea.WithInput(nil), tea.WithoutSignalHandler(), loggingFilter(ctl, func(name string, m tea.Msg) tea.Msg {
+		if _, ok := m.(tea.QuitMsg); ok {
+			atomic.StoreInt32(&quitSeen, 1)
+		}
+		return m
+	}))
+	desc := "four goroutines keep calling Send, Update takes 0.2 ms; then " + how
+	stop := make(chan struct{})
+	for g := 0; g < 4; g++ {
+		g := g
+		go func() {
+			for k := 0; ; k++ {
+				select {
+				case <-stop:
+					return
+				default:
+				}
+				run.p.Send(userMsg{10 + g, k})
+			}
+		}()
+	}
+	waitFor(5*time.Second, func() bool { return ctl.log.count("update-exit", "u1") >= 300 })
+	if how == "quit-msg" {
+		go run.p.Send(userMsg{9, 0})
+	} else {
+		run.p.Quit()
+	}
+	out.record("quit-under-continuous-sends "+how, desc)
+	ok := run.wait(6 * time.Second)
+	close(stop)
+	if !ok {
+		out.fail(finding{Property: "C04", Class: "new", What: "Run does not return after a quit while goroutines keep calling Send", Input: desc,
+			Expected: "Run returns nil", Observed: fmt.Sprintf("not returned after 6 s; %d Updates began after the quit message had been handled", atomic.LoadInt32(&after))})
+		killNow(run.p)
+		run.wait(3 * time.Second)
+		return
+	}
+	if errClass(run.err) != "nil" {
+		out.fail(finding{Property: "C04", Class: "new", What: "quit under continuous sends: wrong error", Input: desc, Expected: "nil", Observed: fmt.Sprint(run.err)})
 	}
 }
